@@ -438,6 +438,14 @@ func f5Switch() []BashCase {
 
 func f6Definitions() []BashCase {
 	progs := map[string][]Stmt{
+		// the same name defined again where the earlier definition is no longer visible: sequential loops, a
+		// definition after the loop, sibling blocks, loops in different functions
+		"loop-var-reuse-sequential":  {forUp("i", 2, pr(sl("a"), vr("i"))), forUp("i", 3, pr(sl("b"), vr("i"))), For{Kind: ForThree, Init: def("i", il(5)), Cond: cmp(">", vr("i"), il(3)), Post: IncDec{"i", false}, Body: []Stmt{pr(sl("c"), vr("i"))}}},
+		"loop-var-then-definition":   {forUp("i", 2, pr(vr("i"))), def("i", il(40)), pr(vr("i")), set("i", bin("+", vr("i"), il(1))), pr(vr("i"))},
+		"range-var-reuse-sequential": {def("w", sl("ab")), For{Kind: ForRange, RangeIdx: "i", RangeVal: "ch", Over: vr("w"), Body: []Stmt{pr(vr("i"), vr("ch"))}}, For{Kind: ForRange, RangeIdx: "i", RangeVal: "ch", Over: sl("xyz"), Body: []Stmt{pr(vr("ch"), vr("i"))}}, forUp("i", 1, pr(vr("i")))},
+		"sibling-block-locals":       {def("x", il(1)), If{Branches: []IfBranch{{cmp("==", vr("x"), il(1)), []Stmt{def("t", il(10)), pr(vr("t"))}}}, HasElse: true, Else: []Stmt{def("t", il(20)), pr(vr("t"))}}, ifs(cmp("==", vr("x"), il(1)), def("t", sl("again")), pr(vr("t"))), forUp("k", 2, def("t", bin("*", vr("k"), il(3))), pr(vr("t")))},
+		"nested-loop-var-after-inner": {forUp("i", 2, forUp("j", 2, pr(vr("i"), vr("j"))), forUp("j", 1, pr(sl("again"), vr("j"))))},
+		"loop-var-in-two-functions":  {fn("fa", nil, []Type{TInt}, def("t", il(0)), forUp("i", 3, OpAssign{"t", "+", vr("i")}), ret(vr("t"))), fn("fb", nil, []Type{TInt}, def("t", il(0)), forUp("i", 4, OpAssign{"t", "+", vr("i")}), forUp("i", 2, OpAssign{"t", "+", il(100)}), ret(vr("t"))), pr(call("fa"), call("fb"))},
 		"defaults": {VarDecl{Names: []string{"a"}, Type: TInt}, VarDecl{Names: []string{"b"}, Type: TBool}, VarDecl{Names: []string{"s"}, Type: TString}, VarDecl{Names: []string{"e"}, Type: TString, ErrTy: true},
 			pr(vr("a"), vr("b"), sl("["+""), vr("s"), sl("]"), cmp("==", vr("e"), NilLit{}), cmp("==", vr("s"), sl("")))},
 		"multi-default":              {VarDecl{Names: []string{"a", "b", "c"}, Type: TInt}, VarDecl{Names: []string{"p", "q"}, Type: TBool}, pr(vr("a"), vr("b"), vr("c"), vr("p"), vr("q"))},
